@@ -494,6 +494,22 @@ impl DtlsInner {
             match DtlsRecord::decode(&mut data) {
                 Ok(None) => break,
                 Ok(Some(record)) => {
+                    // Epoch-0 records are cleartext. Application data is never
+                    // sent in epoch 0, and once keys are negotiated an alert
+                    // must arrive protected; anything else is a forgery (or a
+                    // corrupted header) from the path or a third party and must
+                    // not reach the upper layer or change connection state.
+                    if record.epoch == 0
+                        && (record.content_type == ContentType::ApplicationData
+                            || (record.content_type == ContentType::Alert
+                                && ctx.session_keys.is_some()))
+                    {
+                        debug!(
+                            "Dropping cleartext {:?} record",
+                            record.content_type
+                        );
+                        continue;
+                    }
                     let payload = match self.try_decrypt_record(&record, ctx, is_client) {
                         Ok(p) => p,
                         Err(e) => {
